@@ -94,6 +94,48 @@ fn tree_of(e: &str, func: &str, cls: &str, args: &[&str]) -> (T, Asg) {
     (T::Call(cls.to_string(), 1, ts), asg)
 }
 
+/// aggregates whose arguments are themselves aggregates (the arguments of an aggregate are expressions): every ordered pair of
+/// aggregate spellings, the inner call as the only, the first and the last argument, inner lists of one to three values
+pub fn replay_nested(out: &mut Out, v: &Vocab, e: &str) {
+    let fns: Vec<(&str, &str)> = if e == "i64" { vec![("Min", "fv"), ("Max", "fv"), ("Avg", "fa"), ("Med", "fv"), ("Gcd", "fv"), ("Lcm", "fv")] } else { vec![("Min", "fv"), ("Max", "fv"), ("Avg", "fa"), ("Med", "fv")] };
+    let ph = default_placeholder(e);
+    let inner_lists: [&[&str]; 4] = [&["4"], &["6", "4"], &["3", "12", "6"], &[]];
+    let mut n = 0u64;
+    for (fo, co) in &fns {
+        for ko in v.keywords_of(e, co).into_iter().filter(|k| &k.func == fo) {
+            for (fi, ci) in &fns {
+                for ki in v.keywords_of(e, ci).into_iter().filter(|k| &k.func == fi) {
+                    for il in inner_lists.iter() {
+                        if il.is_empty() && *ci != "fa" { continue; }
+                        for shape in 0..3 {
+                            n += 1;
+                            out.heartbeat(n);
+                            out.stats.items += 1;
+                            let mut asg = Asg::default();
+                            asg.fns.insert(1, fo.to_string());
+                            asg.fns.insert(2, fi.to_string());
+                            let mut pos = 10;
+                            let mut lit = |asg: &mut Asg, t: &str| -> T { pos += 1; asg.lits.insert(pos, (t.to_string(), false)); T::Num(pos) };
+                            let inner_args: Vec<T> = il.iter().map(|a| lit(&mut asg, a)).collect();
+                            let inner_t = if il.is_empty() { T::Zero(2) } else { T::Call(ci.to_string(), 2, inner_args) };
+                            let inner_s = format!("{}({})", ki.name, il.join(","));
+                            let (args, text) = match shape {
+                                0 => (vec![inner_t], format!("{}({})", ko.name, inner_s)),
+                                1 => (vec![inner_t, lit(&mut asg, "18")], format!("{}({},18)", ko.name, inner_s)),
+                                _ => (vec![lit(&mut asg, "9"), lit(&mut asg, "2"), inner_t], format!("{}(9,2,{})", ko.name, inner_s)),
+                            };
+                            let t = T::Call(co.to_string(), 1, args);
+                            let exp = expected(e, &t, &asg, &ph);
+                            let ctx = json!({"aggregate": fo, "inner": fi, "shape": shape});
+                            checked_call(out, e, &text, &ph, Some(&exp), json!({"v": "accept"}), true, &ctx);
+                        }
+                    }
+                }
+            }
+        }
+    }
+}
+
 /// full-width lists: exhaustive over the boundary pool up to length `exh`, seeded random lists up to length 8
 pub fn replay_boundary(out: &mut Out, v: &Vocab, e: &str, exh: usize, random: usize, rng: &mut Rng) {
     let p = pool(e);
